@@ -86,6 +86,7 @@ fn collect<V: Variant>(plan: &WorldPlan, keys: Keys<V>, run: u64, st: &mut Stats
     }
     st.steps += sched.steps;
     st.add("sched.switches", sched.switches);
+    st.add("sched.lock_handoffs", sched.lock_handoffs);
     if sched.switches > 0 {
         st.interleavings.insert(sched.trace_hash);
     }
@@ -517,12 +518,18 @@ pub fn replay(doc: &Value) -> Option<String> {
             let all = run_b(n, seed, doc.get("threads")?.as_u64()? as usize, doc.get("calls")?.as_u64()? as usize, doc.get("procs")?.as_u64()? as usize, doc.get("pcalls")?.as_u64()? as usize, &mut st).ok()?;
             judge_salts(&all, "real generator").map(|c| c.0)
         }
+        "real_generator_turns" => {
+            let seed = doc.get("seed")?.as_u64()?;
+            let ctx = context(Tier::Quick, seed).ok()?;
+            let o = crate::isolate::isolated(|| run_b_mixed(&ctx, seed).to_bytes(), crate::isolate::run_timeout_s()).ok()?;
+            RunOutcome::from_bytes(&o)?.violations.first().map(|v| v.class.clone())
+        }
         "real_generator_volume" => {
             // not bit-replayable (real entropy): the batch is repeated and judged again
             let seed = doc.get("seed")?.as_u64()?;
             let tier = if doc.get("tier")?.as_str()? == "thorough" { Tier::Thorough } else { Tier::Quick };
             let ctx = context(tier, seed).ok()?;
-            let na = ctx.runs512 + ctx.runs1024 + 2;
+            let na = ctx.runs512 + ctx.runs1024 + 3;
             let out = report::parallel_runs(ctx.vol.0, report::workers(), |run| dispatch(&ctx, seed, na + run));
             let mut rep = Report::new(PROP, tier, seed);
             rep.absorb(out);
@@ -606,6 +613,77 @@ fn run_b_outcome(ctx: &Ctx, which: u64) -> RunOutcome {
     out
 }
 
+/// sub-check (b), one more run: two Falcon-512 keys and two Falcon-1024 keys take turns on ONE thread
+/// (this process's main thread, then a fresh thread) under the real generator, on one message. A
+/// generator kept per variant, per key or per "current key" restarts or coincides exactly when the
+/// caller switches back and forth.
+fn run_b_mixed(ctx: &Ctx, seed: u64) -> RunOutcome {
+    let mut out = RunOutcome::default();
+    let mut st = Stats::default();
+    st.inc("runs");
+    st.inc("runs.b_alternating_keys_and_variants");
+    let load512 = |i: usize| ctx.p512.keys[i % ctx.p512.keys.len()].load();
+    let load1024 = |i: usize| ctx.p1024.keys[i % ctx.p1024.keys.len()].load();
+    let (a, b, c, d) = match (load512(0), load512(1), load1024(0), load1024(1)) {
+        (Ok(a), Ok(b), Ok(c), Ok(d)) => (a.0, b.0, c.0, d.0),
+        _ => {
+            st.inc("harness.pool_key_not_loadable");
+            out.stats = st;
+            return out;
+        }
+    };
+    let msg = b"the same message, signed again and again".to_vec();
+    let turns = |tag: &str, order_seed: u64, all: &mut Vec<(String, [u8; 40])>| {
+        let real = world::SignPlan { stream_seed: 0, mode: None, fire: vec![] };
+        let mut rng = Prng::new(order_seed);
+        // fixed opening (every key once, the first one again, 512 and 1024 alternating), then random turns
+        let mut order: Vec<usize> = vec![0, 2, 0, 1, 1, 0, 3, 2, 0, 2];
+        for _ in 0..70 {
+            order.push(rng.usize_below(4));
+        }
+        for (i, k) in order.iter().enumerate() {
+            let salt = match k {
+                0 => world::sign_sim::<V512>(&a, &msg, &real, None).0.ok().and_then(|s| salt_of(&V512::sig_to_bytes(&s))),
+                1 => world::sign_sim::<V512>(&b, &msg, &real, None).0.ok().and_then(|s| salt_of(&V512::sig_to_bytes(&s))),
+                2 => world::sign_sim::<V1024>(&c, &msg, &real, None).0.ok().and_then(|s| salt_of(&V1024::sig_to_bytes(&s))),
+                _ => world::sign_sim::<V1024>(&d, &msg, &real, None).0.ok().and_then(|s| salt_of(&V1024::sig_to_bytes(&s))),
+            };
+            if let Some(s) = salt {
+                all.push((format!("{}-turn{}-key{}", tag, i, ["A512", "B512", "C1024", "D1024"][*k]), s));
+            }
+        }
+    };
+    let mut all: Vec<(String, [u8; 40])> = Vec::new();
+    let os = report::run_seed(seed, "C08turns", 0);
+    turns("main-thread", os, &mut all);
+    std::thread::scope(|sc| {
+        let h = sc.spawn(|| {
+            let mut v = Vec::new();
+            turns("second-thread", os ^ 1, &mut v);
+            v
+        });
+        if let Ok(v) = h.join() {
+            all.extend(v);
+        }
+    });
+    st.add("b.alternating_salts", all.len() as u64);
+    st.evaluations += all.len() as u64;
+    for (_, s) in &all {
+        st.distinct.insert(crate::rng::hash_bytes(10, s));
+    }
+    if let Some((class, detail)) = judge_salts(&all, "real generator, keys and variants taking turns on one thread") {
+        out.violations.push(Violation {
+            property: PROP,
+            class,
+            detail,
+            replay: json!({"kind": "real_generator_turns", "seed": seed, "tier": "quick", "observed_salts": all.iter().take(24).map(|(l, s)| format!("{} {}", l, hex(s))).collect::<Vec<_>>()}),
+            run: (1 << 40) + 3,
+        });
+    }
+    out.stats = st;
+    out
+}
+
 const VOL_TAG: u64 = 1 << 56;
 
 /// one process of the volume batch: `calls` signatures of short messages with one Falcon-512 key
@@ -676,8 +754,10 @@ fn dispatch(ctx: &Ctx, seed: u64, run: u64) -> RunOutcome {
         run_a::<V512>(seed, run, &ctx.p512)
     } else if run < na + 2 {
         run_b_outcome(ctx, run - na)
+    } else if run == na + 2 {
+        run_b_mixed(ctx, seed)
     } else {
-        run_vol(ctx, run - na - 2)
+        run_vol(ctx, run - na - 3)
     }
 }
 
@@ -697,7 +777,7 @@ fn batch_a(rep: &mut Report, tier: Tier, seed: u64) -> Option<()> {
     let w = report::workers();
     let ctx = context(tier, seed).ok()?;
     // sub-check (b) runs are scheduled in the same batch (two extra runs)
-    let out = report::parallel_runs(ctx.runs512 + ctx.runs1024 + 2 + ctx.vol.0, w, |run| dispatch(&ctx, seed, run));
+    let out = report::parallel_runs(ctx.runs512 + ctx.runs1024 + 3 + ctx.vol.0, w, |run| dispatch(&ctx, seed, run));
     rep.absorb(out);
     // the volume batch is judged here, over all its processes
     let (vol, rest): (Vec<_>, Vec<_>) = std::mem::take(&mut rep.stats.blobs).into_iter().partition(|(t, _)| *t >= VOL_TAG && *t < (1 << 62));
@@ -812,7 +892,7 @@ pub fn check(tier: Tier, seed: u64) -> i32 {
             return 2;
         }
     }
-    rep.rule = "a case is one sign call whose salt (bytes 1..41 of the encoded signature) enters the history: (a) under simulator-owned uniform entropy, 1-6 baton-scheduled threads x 4-15 calls over two shared keys with half of the calls on one common message, some with forced retries, and in half of the runs 2-3 calls on one message and key whose streams agree on their first 32 or 64 bits only (E7); (b) under the real thread_rng, threads x calls, fresh child processes, fresh processes that generate the key from its seed and sign on their main thread, a clone phase (a key that has signed is cloned, original and copy sign alternately), 200 (1200) short-lived threads signing once each, and a long single-thread history (3000 / 1500 calls in quick, 20000 / 8300 in thorough) on one message and one key, a volume batch (16 x 12500 signatures in quick, 64 x 50000 in thorough, one process each) whose salts must not repeat over the whole batch, and a deep batch (instrumented build: 2-4 threads x 3-6 calls, pre-emption at function entries, calls starting side by side); every observed salt is non-trivial; distinct = distinct salt values".into();
+    rep.rule = "a case is one sign call whose salt (bytes 1..41 of the encoded signature) enters the history: (a) under simulator-owned uniform entropy, 1-6 baton-scheduled threads x 4-15 calls over two shared keys with half of the calls on one common message, some with forced retries, and in half of the runs 2-3 calls on one message and key whose streams agree on their first 32 or 64 bits only (E7); (b) under the real thread_rng, threads x calls, fresh child processes, fresh processes that generate the key from its seed and sign on their main thread, a clone phase (a key that has signed is cloned, original and copy sign alternately), 200 (1200) short-lived threads signing once each, and a long single-thread history (3000 / 1500 calls in quick, 20000 / 8300 in thorough) on one message and one key, a run in which two Falcon-512 and two Falcon-1024 keys take turns on one thread (80 turns on the main thread of a process, 80 on a second thread), a volume batch (16 x 12500 signatures in quick, 64 x 50000 in thorough, one process each) whose salts must not repeat over the whole batch, and a deep batch (instrumented build: 2-4 threads x 3-6 calls, pre-emption at function entries, calls starting side by side); every observed salt is non-trivial; distinct = distinct salt values".into();
     rep.assumptions = vec![
         "(a) masks, by construction, a generator that is not the hooked one; (b) exists for that case and is not bit-replayable (it observes real OS entropy); its verdict depends on the values only through collisions (probability < 2^-200)".into(),
         "bit balance: every one of the 320 salt bit positions must be set in N/2 +- 6.3*sqrt(N)/2 of N >= 2000 salts".into(),
